@@ -134,7 +134,13 @@ func c03(c *ctx) {
 				body := ws.NewCloseFrameBody(ws.StatusCode(code), string(reason))
 				pc, pr := ws.ParseCloseFrameData(body)
 				uc, ur := ws.ParseCloseFrameDataUnsafe(body)
-				emit(map[string]interface{}{"k": "body", "key": key, "code": code, "reason": vh.Ints(reason), "body": vh.Ints(body),
+				// PutCloseFrameBody encodes into the caller's buffer without cropping (reasons that fit only)
+				put := append([]byte(nil), body...)
+				if ln <= 123 {
+					put = make([]byte, 2+ln)
+					ws.PutCloseFrameBody(put, ws.StatusCode(code), string(reason))
+				}
+				emit(map[string]interface{}{"k": "body", "key": key, "code": code, "reason": vh.Ints(reason), "body": vh.Ints(body), "put": vh.Ints(put),
 					"pcode": int(pc), "preason": vh.Ints([]byte(pr)), "ucode": int(uc), "ureason": vh.Ints([]byte(ur))})
 				shapes.Add("body/%d/%d", ln, variant)
 			}
